@@ -59,6 +59,11 @@ CLAIMED["C09"] = dict(
     text="For every input and coin at once: the fixed-width bincode configuration is the only one constructed and the wire codec goes through utils::serde; no branch whose condition is value-dependent on an own secret (other than abort checks) controls a channel operation, an await, a length-changing container operation, the Some/None pattern of a message slot or a filter-like adaptor; expected-length arguments are secret-free. Byte-exact sizes and timing are not decided.",
     note="Trusted: bincode legacy = fixed-width; lengths / Option discriminants / iterator exhaustion are treated as public shape.",
     ref="DESIGN.md §3 R7, §4 C09")
+CLAIMED["C12"] = dict(
+    technique="channel-effect analysis at join combinators (per-branch addressed peer / direction), await Ready-edge dominance between channel operations, label pairing and prior-label agreement across role branches (rustc MIR + resolved call graph)",
+    text="The property's second sentence, for every schedule and buffer size: at every try_join_all the per-element future addresses only the element of an iteration over pairwise distinct peers; try_join / try_join! branches are direction-disjoint; outside joins each channel operation is awaited before the next is created; every label has a sender and a receiver and both roles run it after the same earlier labels; the pairwise OT sessions run in mirrored order chosen by an order comparison of party indices. Deadlock-freedom/termination with the correct result additionally needs equal chunk counts and a fair Channel (not decided).",
+    note="Trusted: channels are per-pair FIFO; distinctness of p_out is enforced by validate() (C18).",
+    ref="DESIGN.md §3 R8, §4 C12")
 NA = {}
 
 def main():
